@@ -131,6 +131,11 @@ func (c caseSpec) expectOK() bool {
 		if b.Rename >= 0 && (b.RenameCode != 0 || !plainName[b.SEC]) {
 			return false
 		}
+		// removing an entry the caller named OFFSET shifts the positions from which build numbers
+		// entries added later: their trace numbers may collide (Create then returns an error)
+		if b.Rename >= 0 && b.Offset != "" && adds[i] {
+			return false
+		}
 	}
 	return true
 }
@@ -179,7 +184,16 @@ func isOffsetName(s string) bool { return strings.EqualFold(s, "OFFSET") }
 
 // freshEntries: valid entries of the SEC from the shared generator, taken out of a created
 // batch (OFFSET rows dropped); the caller decides about the trace numbers.
-func freshEntries(sec string, seed uint64, odfi string, max int, addenda bool) (*ach.BatchHeader, []*ach.EntryDetail) {
+func freshEntries(sec string, seed uint64, odfi string, max int, addenda bool) (hdr *ach.BatchHeader, out []*ach.EntryDetail) {
+	defer func() {
+		// the shared generator panics when it cannot get its batch through Create (it is written
+		// for a working library): fall back to plain hand-made entries so that the oracle still
+		// runs and can name a concrete failing history
+		if p := recover(); p != nil {
+			degraded++
+			hdr, out = plainEntries(sec, seed, odfi, max, addenda)
+		}
+	}()
 	r := rng.New(seed)
 	b := gen.BatchOfKind(r, sec, odfi, 1, gen.KindForward, gen.Opts{MaxEntries: max, Addenda: addenda})
 	var es []*ach.EntryDetail
@@ -190,6 +204,65 @@ func freshEntries(sec string, seed uint64, odfi string, max int, addenda bool) (
 	}
 	h := *b.GetHeader()
 	return &h, es
+}
+
+var degraded int
+var lastDegraded string
+
+// safely runs a call into the shared generator; false when it panicked (library broken)
+func safely(f func()) (ok bool) {
+	defer func() {
+		if p := recover(); p != nil {
+			degraded++
+			lastDegraded = fmt.Sprint(p)
+			ok = false
+		}
+	}()
+	f()
+	return true
+}
+
+// plainEntries: PPD / CCD / WEB style entries built without calling Create (see freshEntries).
+func plainEntries(sec string, seed uint64, odfi string, max int, addenda bool) (*ach.BatchHeader, []*ach.EntryDetail) {
+	r := rng.New(seed ^ 0x5bd1e995)
+	if sec != ach.PPD && sec != ach.CCD && sec != ach.WEB {
+		sec = ach.PPD
+	}
+	if odfi == "" {
+		odfi = "12104288"
+	}
+	bh := ach.NewBatchHeader()
+	bh.ServiceClassCode = ach.MixedDebitsAndCredits
+	bh.StandardEntryClassCode = sec
+	bh.CompanyName = "Payee Co"
+	bh.CompanyIdentification = "121042882"
+	bh.CompanyEntryDescription = "PAYMENT"
+	bh.EffectiveEntryDate = "190816"
+	bh.ODFIIdentification = odfi
+	var es []*ach.EntryDetail
+	n := r.Range(1, max)
+	for i := 0; i < n; i++ {
+		e := ach.NewEntryDetail()
+		e.TransactionCode = rng.Pick(r, []int{ach.CheckingCredit, ach.CheckingDebit, ach.SavingsCredit, ach.SavingsDebit})
+		e.SetRDFI(rng.Pick(r, []string{"231380104", "121042882", "091000019"}))
+		e.DFIAccountNumber = strconv.Itoa(r.Range(1000, 99999999))
+		e.Amount = r.Range(1, 5000000)
+		e.IndividualName = "Receiver " + strconv.Itoa(i)
+		e.SetTraceNumber(odfi, i+1)
+		if sec == ach.WEB {
+			e.SetPaymentType("S")
+		}
+		if addenda && r.Bool() {
+			a := ach.NewAddenda05()
+			a.PaymentRelatedInformation = "invoice " + strconv.Itoa(r.Range(1, 9999))
+			a.SequenceNumber = 1
+			a.EntryDetailSequenceNumber = i + 1
+			e.AddAddenda05(a)
+			e.AddendaRecordIndicator = 1
+		}
+		es = append(es, e)
+	}
+	return bh, es
 }
 
 func clearTrace(e *ach.EntryDetail) {
@@ -214,7 +287,12 @@ func build(c caseSpec) *world {
 	switch c.Kind {
 	case "adv":
 		for _, bs := range c.Batches {
-			af := gen.FileOfSEC(rng.New(bs.GSeed), ach.ADV, gen.Opts{MinBatches: 1, MaxBatches: 1, MaxEntries: bs.MaxEntries})
+			var af *ach.File
+			if !safely(func() {
+				af = gen.FileOfSEC(rng.New(bs.GSeed), ach.ADV, gen.Opts{MinBatches: 1, MaxBatches: 1, MaxEntries: bs.MaxEntries})
+			}) {
+				continue
+			}
 			src := af.Batches[0]
 			h := *src.GetHeader()
 			h.BatchNumber = bs.Num
@@ -231,7 +309,12 @@ func build(c caseSpec) *world {
 	case "iat":
 		w.iat = true
 		for _, bs := range c.Batches {
-			ib := gen.IATBatch(rng.New(bs.GSeed), "", bs.Num, gen.Opts{MaxEntries: bs.MaxEntries, Addenda: bs.Addenda, ForwardOnly: true})
+			var ib ach.IATBatch
+			if !safely(func() {
+				ib = gen.IATBatch(rng.New(bs.GSeed), "", bs.Num, gen.Opts{MaxEntries: bs.MaxEntries, Addenda: bs.Addenda, ForwardOnly: true})
+			}) {
+				continue
+			}
 			nb := ach.NewIATBatch(ib.GetHeader())
 			nb.Header.BatchNumber = bs.Num
 			for i, e := range ib.GetEntries() {
@@ -342,6 +425,15 @@ const (
 
 var hangs int
 
+// watchdog: generous for the first hang (operations normally take well under a millisecond),
+// short once a hang has been seen in this run
+func watchdog() time.Duration {
+	if hangs == 0 {
+		return 20 * time.Second
+	}
+	return 3 * time.Second
+}
+
 func guarded(f func() error) (out outcome, detail string) {
 	type res struct {
 		err error
@@ -365,9 +457,9 @@ func guarded(f func() error) (out outcome, detail string) {
 			return outERR, r.err.Error()
 		}
 		return outOK, ""
-	case <-time.After(20 * time.Second):
+	case <-time.After(watchdog()):
 		hangs++
-		return outHANG, "no return within 20s"
+		return outHANG, "no return within the watchdog time"
 	}
 }
 
@@ -754,7 +846,7 @@ func corr(args []string) {
 	impl := hx.Create(filepath.Join(*out, "impl.txt"))
 	total, lines := 0, 0
 	for id, c := range allCases(*corpus, *n, *maxOps, 505) {
-		if c.Kind != "std" || hangs > 3 {
+		if c.Kind != "std" || hangs > 1 {
 			continue
 		}
 		total++
@@ -972,7 +1064,13 @@ func checkFileCreated(w *world) (string, string) {
 // runOracle evaluates the property on one history; it returns the failures and whether
 // some Create succeeded (the history is then counted as non-trivial).
 func runOracle(c caseSpec) (fails []failure, created bool, outs []outcome) {
+	d0 := degraded
 	w := build(c)
+	if c.Kind != "std" && degraded > d0 {
+		// the shared generator's ADV / IAT batch (valid by construction) did not get through Create
+		fails = append(fails, failure{Kind: "fail", Key: "create:unexpected-error", What: c.Kind + " batch, valid by construction: " + lastDegraded, Case: c})
+		return
+	}
 	twin := build(c) // same history with Batch.build (hook) in place of Create
 	expect := c.expectOK()
 	if c.Kind == "std" {
@@ -1181,7 +1279,7 @@ func oracle(args []string) {
 	sum := summary{Kind: "summary", Dist: map[string]int{}, Rule: "one evaluation = one operation of a history run through the public API (Create / AddEntry / File.Create) with all checks after it; a history is non-trivial when at least one Create in it succeeded; distinct by the JSON of the case"}
 	seen := map[string]bool{}
 	for _, c := range allCases(*corpus, *n, *maxOps, *salt) {
-		if hangs > 3 {
+		if hangs > 1 {
 			break
 		}
 		fails, created, outs := runOracle(c)
@@ -1214,6 +1312,9 @@ func oracle(args []string) {
 		if len(sum.Samples) < 5 && sum.Dist["kind:"+c.Kind]%211 == 1 {
 			sum.Samples = append(sum.Samples, c)
 		}
+	}
+	if degraded > 0 {
+		sum.Dist["generator-degraded"] = degraded
 	}
 	enc(sum)
 	res.Close()
